@@ -155,11 +155,25 @@ def _b(x):
     return sym._zb(x)
 
 
+import operator as _op
+
+_XF_OPS = {"add": _op.add, "subtract": _op.sub, "multiply": _op.mul, "true_divide": _op.truediv, "divide": _op.truediv, "negative": _op.neg,
+           "less": _op.lt, "less_equal": _op.le, "greater": _op.gt, "greater_equal": _op.ge, "equal": _op.eq, "not_equal": _op.ne, "positive": lambda a: a}
+
+
 def _mkop(real_ufunc, symf):
+    name = real_ufunc.__name__
+
     def op(*xs):
         if _conc(*xs):
             with rnp.errstate(all="ignore"):
                 return real_ufunc(*xs)
+        if any(isinstance(x, sym.XF) for x in xs):
+            # bit-precise binary64 operands: only the operations with an exact IEEE meaning are available
+            if name not in _XF_OPS:
+                raise Unsupported("numpy.%s on bit-precise binary64 values" % name)
+            ys = [x if isinstance(x, sym.XF) else sym.XF.lift(x) for x in xs]
+            return _XF_OPS[name](*ys)
         return symf(*xs)
 
     return op
